@@ -394,7 +394,8 @@ class MultitaskMultivariateNormal(MultivariateNormal):
                     col_idx = _normalize_index(col_idx, num_cols)
                 row_grid, col_grid = torch.meshgrid(row_idx, col_idx, indexing="ij")
                 indices = (row_grid * num_cols + col_grid).reshape(-1)
-                new_cov = self.lazy_covariance_matrix[batch_idx + (indices,)][..., indices]
+                # batch indices first: an index tensor among them must not be zipped with the flat event indices
+                new_cov = self.lazy_covariance_matrix[batch_idx][..., indices, :][..., indices]
                 return MultitaskMultivariateNormal(
                     mean=new_mean, covariance_matrix=new_cov, interleaved=self._interleaved, validate_args=False
                 )
